@@ -100,3 +100,17 @@ Theorem C19_model_loop_is_the_translated_loop :
          (fun j => negb (flag_at <=? j)%nat) iters s i acc)).
 Proof. exact model_polling_loop_is_worker. Qed.
 Print Assumptions C19_model_loop_is_the_translated_loop.
+
+(* main AS TRANSLATED (see C16_translated_main_is_spec): the process exits with status 0 only after every
+   thread it spawned — the workers and, with client_stats, the reporter — has been joined and none of them
+   panicked; a thread that panicked turns the exit into a panic of main (status 101), never into status 0 *)
+Require Import RV.Model.Config RV.Model.ConfigLoad RV.Model.LoadModel RV.Proofs.CodeLoad RV.Proofs.CodeMain.
+From Coq Require Import ZArith NArith.
+Theorem C19_translated_exit_0_only_after_every_thread_ended :
+  forall argc arg cores env fs valid bind_ok joins_ok ths,
+  main_spec argc arg cores env fs valid bind_ok joins_ok = Err (ExitWith 0 ths) ->
+  exists c, (if bytes_eqb arg t_ENV then env_load cores env else file_load cores (fs arg)) = Ok c
+            /\ valid c = true /\ ths = threads_of c /\ forallb joins_ok ths = true
+            /\ length (filter (fun t => match t with TWorker _ => true | TReporter => false end) ths) = N.to_nat (Z.to_N (lc_workers c)).
+Proof. exact main_exit_0. Qed.
+Print Assumptions C19_translated_exit_0_only_after_every_thread_ended.
